@@ -845,6 +845,117 @@ Definition fokT (c : fcaseT) : bool :=
   let '(ts, ds, _, cr) := c in negb cr && ok_runT ts (map obs_of_digest (decode_digests (S (nops ts)) ds)).
 Definition flegalT (c : fcaseT) : bool := let '(ts, _, _, _) := c in legal_progT ts.
 
+(* ================================================================ Part 1c: vfork and unrecorded entries
+   idx (number of shadow-stack entries) and record_idx (number of RECORDED entries) differ as soon as a filter
+   leaves a library call unrecorded (MCOUNT_FL_NORECORD: -N vfork, -D n, -F f ...): it is pushed all the same.
+   This part models exactly that bookkeeping around vfork() - prepare_vfork / mcount_restore_vfork
+   (libmcount/plthook.c, after fixes 7e6b323 and f59e4b7) - on the rstack ARRAY: the child runs on the parent's
+   array, and the restore writes rstack[idx - 1].  Entries are opaque (an identity and the NORECORD flag).
+   Threads: the saved state belongs to the thread that called vfork(); hooks of other threads of the parent
+   process (same pid) run while the child runs and must not take it.  *)
+Record vent := { v_id : N; v_norec : bool }.
+Definition vent_eqb (a b : vent) : bool := (v_id a =? v_id b) && Bool.eqb (v_norec a) (v_norec b).
+(* the shadow stack of one thread: the array, idx, record_idx *)
+Record vth := { v_arr : N -> vent; v_idx : N; v_ridx : N }.
+(* the file-level statics: vfork_parent (0 = none pending), the calling thread, the saved indices and entry *)
+Record vsaved := { s_pid : N; s_thr : N; s_idx : N; s_ridx : N; s_ent : vent }.
+Definition vsaved0 := {| s_pid := 0; s_thr := 0; s_idx := 0; s_ridx := 0; s_ent := {| v_id := 0; v_norec := false |} |}.
+
+Definition vpush (t : vth) (e : vent) : vth :=
+  {| v_arr := fun i => if i =? v_idx t then e else v_arr t i; v_idx := v_idx t + 1;
+     v_ridx := if v_norec e then v_ridx t else v_ridx t + 1 |}.
+(* the exit hooks: mcount_exit_filter_record decrements record_idx for recorded entries only *)
+Definition vpop (t : vth) : vth :=
+  {| v_arr := v_arr t; v_idx := v_idx t - 1;
+     v_ridx := if v_norec (v_arr t (v_idx t - 1)) then v_ridx t else dec (v_ridx t) |}.
+(* __plthook_entry of vfork: push, then prepare_vfork *)
+Definition vprepare (pid thr : N) (t : vth) (e : vent) : vth * vsaved :=
+  let t1 := vpush t e in
+  (t1, {| s_pid := pid; s_thr := thr; s_idx := v_idx t1; s_ridx := v_ridx t1; s_ent := e |}).
+(* mcount_restore_vfork, called at the start of every hook while a vfork is pending *)
+Definition vrestore (pid thr : N) (t : vth) (sv : vsaved) : vth * vsaved :=
+  if (0 <? s_pid sv) && (thr =? s_thr sv) && (pid =? s_pid sv)
+  then ({| v_arr := fun i => if i =? s_idx sv - 1 then s_ent sv else v_arr t i;
+           v_idx := s_idx sv; v_ridx := s_ridx sv |}, vsaved0)
+  else (t, sv).
+(* code as found (before 7e6b323): keyed on the pid alone *)
+Definition vrestore_legacy (pid thr : N) (t : vth) (sv : vsaved) : vth * vsaved :=
+  if (0 <? s_pid sv) && (pid =? s_pid sv)
+  then ({| v_arr := fun i => if i =? s_idx sv - 1 then s_ent sv else v_arr t i;
+           v_idx := s_idx sv; v_ridx := s_ridx sv |}, vsaved0)
+  else (t, sv).
+(* seeded change C11-9: the shadow-stack index taken from the saved RECORD index *)
+Definition vrestore_seeded (pid thr : N) (t : vth) (sv : vsaved) : vth * vsaved :=
+  if (0 <? s_pid sv) && (thr =? s_thr sv) && (pid =? s_pid sv)
+  then ({| v_arr := fun i => if i =? s_ridx sv - 1 then s_ent sv else v_arr t i;
+           v_idx := s_ridx sv; v_ridx := s_ridx sv |}, vsaved0)
+  else (t, sv).
+
+(* what the child does on the parent's array after its own return from vfork: pushes (recorded or not) and
+   returns of ITS OWN calls - it never returns from the function that called vfork (undefined behaviour) *)
+Inductive vop := VPush (e : vent) | VPop.
+Fixpoint vchild (floor : N) (t : vth) (ops : list vop) : option vth :=
+  match ops with
+  | [] => Some t
+  | VPush e :: r => vchild floor (vpush t e) r
+  | VPop :: r => if floor <? v_idx t then vchild floor (vpop t) r else None
+  end.
+(* the whole section as the vforking thread sees it: entry hook, the child's exit of vfork and activity on the
+   shared array (the child's pid differs: its hooks restore nothing), then the first hook in the parent *)
+Definition vsection (restore : N -> N -> vth -> vsaved -> vth * vsaved)
+                    (pid cpid thr : N) (t : vth) (e : vent) (ops : list vop) : option (vth * vsaved) :=
+  let '(t1, sv) := vprepare pid thr t e in
+  let '(t2, sv2) := restore cpid thr (vpop t1) sv in        (* child: exit hook of vfork *)
+  match vchild (v_idx t) t2 ops with
+  | Some t3 => Some (restore pid thr t3 sv2)
+  | None => None
+  end.
+Definition vth_eqb_upto (a b : vth) : bool :=
+  (v_idx a =? v_idx b) && (v_ridx a =? v_ridx b) &&
+  forallb (fun i => vent_eqb (v_arr a i) (v_arr b i)) (map N.of_nat (seq 0 (N.to_nat (v_idx a)))).
+
+(* in-process scripts: what the harness does to ONE thread, and what it printed after every operation
+   (idx, record_idx, the NORECORD flags bottom first) *)
+Inductive vsop := SPush (e : vent) | SPops (n : N) | SVfork (e : vent) | SChild | SWake | SParent.
+Fixpoint vpops (n : nat) (t : vth) : vth := match n with O => t | S k => vpops k (vpop t) end.
+(* state: the pid the thread currently runs as (1 = the parent, 2 = the vfork child), its shadow stack, the statics.
+   SChild: the child comes back from vfork (exit hook).  SWake: the child is gone, the parent runs again but has
+   not reached vfork's exit hook yet (a signal handler comes first).  SParent: the parent's exit hook of vfork.
+   Every entry hook (SPush) starts with mcount_restore_vfork. *)
+Definition vs_step (st : N * vth * vsaved) (o : vsop) : N * vth * vsaved :=
+  let '(pid, t, sv) := st in
+  match o with
+  | SPush e => let '(t1, sv1) := vrestore pid 1 t sv in (pid, vpush t1 e, sv1)
+  | SPops n => (pid, vpops (N.to_nat n) t, sv)
+  | SVfork e => let '(t1, sv1) := vprepare pid 1 t e in (pid, t1, sv1)
+  | SChild => let '(t1, sv1) := vrestore 2 1 t sv in (2, vpop t1, sv1)
+  | SWake => (1, t, sv)
+  | SParent => let '(t1, sv1) := vrestore 1 1 t sv in (1, vpop t1, sv1)
+  end.
+Definition vshape (t : vth) : N * N * list bool :=
+  (v_idx t, v_ridx t, map (fun i => v_norec (v_arr t (N.of_nat i))) (seq 0 (N.to_nat (v_idx t)))).
+Fixpoint vs_run (st : N * vth * vsaved) (ops : list vsop) : list (N * N * list bool) :=
+  match ops with [] => [] | o :: r => let st' := vs_step st o in vshape (snd (fst st')) :: vs_run st' r end.
+Definition vth0 : vth := {| v_arr := fun _ => {| v_id := 0; v_norec := false |}; v_idx := 0; v_ridx := 0 |}.
+Definition shape_eqb (a b : N * N * list bool) : bool :=
+  let '(i1, r1, l1) := a in let '(i2, r2, l2) := b in (i1 =? i2) && (r1 =? r2) && list_eqb Bool.eqb l1 l2.
+(* the model and libmcount agree on every step *)
+Definition vagree (c : list vsop * list (N * N * list bool)) : bool := list_eqb shape_eqb (vs_run (1, vth0, vsaved0) (fst c)) (snd c).
+(* ground truth, on the implementation's own output: the state after the parent's return from vfork is the
+   state before the vfork call *)
+Fixpoint vok_from (prev : N * N * list bool) (before : option (N * N * list bool)) (ops : list vsop)
+                  (obs : list (N * N * list bool)) : bool :=
+  match ops, obs with
+  | o :: r, s :: sr =>
+      match o with
+      | SVfork _ => vok_from s (Some prev) r sr
+      | SParent => match before with Some b => shape_eqb b s && vok_from s None r sr | None => false end
+      | _ => vok_from s before r sr
+      end
+  | _, _ => true
+  end.
+Definition vok (c : list vsop * list (N * N * list bool)) : bool := vok_from (0, 0, []) None (fst c) (snd c).
+
 (* ================================================================ Part 2: replay side *)
 From Coq Require Import ZArith.
 (* one record of a task's stream as replay classifies it (fixup_syms); an EXIT carries the depth field
